@@ -145,7 +145,7 @@ fn check_cli(m: &Mixed) -> Result<(), String> {
 fn run(c: &mut Ctx) {
     super::replay_fuzz_corpus(c, "fz_stream", &["C13", "C01"]);
     let rec = std::sync::Arc::new(rec_lines());
-    let cases = c.tier.pick(12_000, 300_000);
+    let cases = c.tier.pick(36_000, 600_000);
     let r = c.proptest(cases, mixed_strategy(rec.clone()), |c, m, counting| {
         check(m)?;
         if counting {
@@ -205,7 +205,7 @@ fn tcp_subcheck(c: &mut Ctx) {
         }
         c.eval(1);
         c.class("tcp_junk_then_frames");
-        match check(seq, 9000 + i as u64) {
+        match check(seq, 1200 + i as u64) {
             Ok(Outcome::Ok { .. }) => c.nontrivial(&("tcp", i)),
             Ok(Outcome::Inconclusive(m)) => c.inconclusive(&m),
             Err(m) => {
@@ -230,7 +230,7 @@ fn replay(c: &mut Ctx, case: &Value) {
     if case["kind"].as_str() == Some("tcp") {
         c.eval(1);
         if let Ok(seq) = serde_json::from_value::<Vec<super::c18::Fault>>(case["faults"].clone()) {
-            if let Err(m) = super::c18::check(&seq, 9100) {
+            if let Err(m) = super::c18::check(&seq, 1300) {
                 c.fail(m, "c13:tcp", case.clone());
             }
         }
